@@ -336,7 +336,35 @@ func quietWindow(open bool) func() {
 	}
 }
 
+// read-compute-write over a plain variable with access points; YieldAt runs a thread last at such a point
+func yieldAtBody(locked bool) func() {
+	return func() {
+		sched.YieldAt("x.")
+		x := 0
+		var mu sync.Mutex
+		var wg sync.WaitGroup
+		for i := 0; i < 2; i++ {
+			wg.Add(1)
+			sched.Go(func() {
+				defer wg.Done()
+				if locked {
+					mu.Lock()
+					defer mu.Unlock()
+				}
+				sched.Access("x.v")
+				v := x
+				sched.Access("x.v")
+				x = v + 1
+			})
+		}
+		wg.Wait()
+		sched.SetOutcome(fmt.Sprint(x))
+	}
+}
+
 var lits = []lit{
+	{"yield-at: unprotected update P=0", sched.Bounds{F: -1}, 0, yieldAtBody(false), []string{"1"}},
+	{"yield-at: locked update P=1", sched.Bounds{F: -1, P: 1}, 0, yieldAtBody(true), []string{"2"}},
 	{"window closed: lost-update P=1", sched.Bounds{F: -1, P: 1}, 0, quietWindow(false), []string{"2"}},
 	{"window open: lost-update P=1", sched.Bounds{F: -1, P: 1}, 0, quietWindow(true), []string{"1", "2"}},
 	{"unbuffered two-senders P=2", sched.Bounds{F: -1, P: 2}, 0, unbufTwoSenders, []string{"12 left=0", "21 left=0"}},
